@@ -549,7 +549,8 @@ def with_views(prog, rule, rows):
         second = None
     finally:
         prog._handler_views = False
-    if second is not None and len([o for o in second if o.status == 'violated']) <= len([o for o in first if o.status == 'violated']):
+    from engine import covers
+    if second is not None and covers(first, second) and len([o for o in second if o.status == 'violated']) <= len([o for o in first if o.status == 'violated']):
         # clean, or the more precise report (the view opens helpers the first reading could not look into)
         for o in second:
             o.what = (o.what or '') + ' [read with helpers / combinator closures inlined]'
